@@ -13,7 +13,8 @@
 //!   valdigest: `key_data.into_val()` / `sig_data.into_val()` (Bytes of 5 words > 4 payload words of a Val) are
 //!   the injective oracle's digests (equal byte strings <-> equal Vals).
 //!
-//! PRE-STATE (built directly in storage). NR = CAP rule slots; rule j has a symbolic id (pairwise distinct),
+//! PRE-STATE (built directly in storage). NR = CAP rule slots; rule j has the id 11 + 3 j (ids are opaque to the
+//! code under test; fixed ids keep the storage keys concrete),
 //! a symbolic `kind`: 0 = stored but in no list that the call reads (a rule of some other type), 1 = listed in
 //! `Ids(type of context 1)`, 2 = listed in `Ids(Default)`, 3 = listed in `Ids(type of context 2)` (two-context
 //! harnesses, when the two contexts have different types). Registry invariant assumed (established by C20's
@@ -53,6 +54,8 @@ use multisig_example::MultisigContract;
 
 // ------------------------------------------------------------------------------------------ layout
 pub const NR: usize = CAP;
+/// shape entry: the rule's kind is symbolic
+pub const ANY: u8 = 255;
 const S_IDS_1: usize = 0; // Ids(type of context 1)
 const S_IDS_D: usize = 1; // Ids(Default)
 const S_RULE: usize = 2; // + 3 j: Meta(id_j), Signers(id_j), Policies(id_j)
@@ -60,7 +63,10 @@ const S_IDS_2: usize = S_RULE + 3 * NR; // Ids(type of context 2) when it differ
 const DECLARED_1: usize = S_IDS_2;
 const DECLARED_2: usize = S_IDS_2 + 1;
 
-const TRUE_W: u64 = (model::TAG_BOOL << 56) | 1;
+/// the answer word decodes to `true` (as `<bool as Flat>::unflat` reads it: tag + lowest bit)
+fn is_true(w: u64) -> bool {
+    (w >> 56) == model::TAG_BOOL && w & 1 == 1
+}
 const F_VERIFY: u64 = Symbol::of("verify");
 const F_CAN: u64 = Symbol::of("can_enforce");
 const F_ENFORCE: u64 = Symbol::of("enforce");
@@ -148,15 +154,16 @@ fn arb_context() -> (Context, ContextRuleType) {
         (cx, ContextRuleType::CreateContract(h))
     }
 }
-fn arb_argbuf() -> ArgBuf {
-    let mut a = ArgBuf::new();
-    a.n = kani::any();
-    let mut i = 0;
-    while i < AW {
-        a.w[i] = kani::any();
-        i += 1;
+/// what an address authorizes for `require_auth_for_args`: exactly `expected`, or something else. The code only
+/// ever compares a grant with the expected words, so ONE representative of "something else" suffices.
+fn arb_grant(expected: &ArgBuf) -> ArgBuf {
+    if kani::any() {
+        *expected
+    } else {
+        let mut a = *expected;
+        a.w[0] ^= 1;
+        a
     }
-    a
 }
 
 // ------------------------------------------------------------------------------------------ registry
@@ -179,10 +186,18 @@ pub struct Scenario {
     pub rules: [Rule; NR],
 }
 
-fn declare_rule(j: usize, t1: &ContextRuleType, t2: &ContextRuleType, max_kind: u8, max_sig: u32, max_pol: u32) -> Rule {
-    let kind: u8 = kani::any();
-    kani::assume(kind <= max_kind);
-    let id: u32 = kani::any();
+/// `forced`: the rule's kind, or ANY for a symbolic one (<= max_kind)
+fn declare_rule(j: usize, forced: u8, t1: &ContextRuleType, t2: &ContextRuleType, max_kind: u8, max_sig: u32, max_pol: u32) -> Rule {
+    let kind: u8 = if forced == ANY {
+        let k: u8 = kani::any();
+        kani::assume(k <= max_kind);
+        k
+    } else {
+        forced
+    };
+    // ids are opaque keys / list elements for the code under test: fixed distinct constants keep the storage
+    // keys concrete (C20's harnesses quantify over all u32 ids)
+    let id: u32 = 11 + 3 * j as u32;
     let free = arb_rule_type();
     let context_type = if kind == 1 {
         t1.clone()
@@ -236,31 +251,28 @@ fn declare_list(slot: usize, ty: &ContextRuleType, ids: &Vec<u32>) {
     model::declare_val(slot, 0, &Key::Ids(ty.clone()), present, ids, kani::any());
 }
 #[cfg(not(feature = "cap3"))]
-fn mk_rules(t1: &ContextRuleType, t2: &ContextRuleType, mk: u8, ms: u32, mp: u32) -> [Rule; NR] {
-    let r0 = declare_rule(0, t1, t2, mk, ms, mp);
-    let r1 = declare_rule(1, t1, t2, mk, ms, mp);
-    kani::assume(r0.rule.id != r1.rule.id);
+fn mk_rules(sh: &[u8; NR], t1: &ContextRuleType, t2: &ContextRuleType, mk: u8, ms: u32, mp: u32) -> [Rule; NR] {
+    let r0 = declare_rule(0, sh[0], t1, t2, mk, ms, mp);
+    let r1 = declare_rule(1, sh[1], t1, t2, mk, ms, mp);
     [r0, r1]
 }
 #[cfg(feature = "cap3")]
-fn mk_rules(t1: &ContextRuleType, t2: &ContextRuleType, mk: u8, ms: u32, mp: u32) -> [Rule; NR] {
-    let r0 = declare_rule(0, t1, t2, mk, ms, mp);
-    let r1 = declare_rule(1, t1, t2, mk, ms, mp);
-    let r2 = declare_rule(2, t1, t2, mk, ms, mp);
-    kani::assume(r0.rule.id != r1.rule.id && r0.rule.id != r2.rule.id && r1.rule.id != r2.rule.id);
+fn mk_rules(sh: &[u8; NR], t1: &ContextRuleType, t2: &ContextRuleType, mk: u8, ms: u32, mp: u32) -> [Rule; NR] {
+    let r0 = declare_rule(0, sh[0], t1, t2, mk, ms, mp);
+    let r1 = declare_rule(1, sh[1], t1, t2, mk, ms, mp);
+    let r2 = declare_rule(2, sh[2], t1, t2, mk, ms, mp);
     [r0, r1, r2]
 }
 
 /// the whole symbolic scenario: ledger, authorization sets, registry, signatures, batch of contexts
 pub fn scenario(n_ctx: usize, max_sig: u32, max_pol: u32, max_supplied: u32) -> Scenario {
+    scenario_shaped(&[ANY; NR], n_ctx, max_sig, max_pol, max_supplied)
+}
+/// `shape[j]`: kind of rule slot j (0 unlisted, 1 own type, 2 Default) or ANY; concrete shapes give id lists of
+/// concrete length (much cheaper symbolic execution)
+pub fn scenario_shaped(shape: &[u8; NR], n_ctx: usize, max_sig: u32, max_pol: u32, max_supplied: u32) -> Scenario {
     setup_world();
     let w = world();
-    let mut i = 0;
-    while i < NADDR {
-        w.auth_args_set[i] = kani::any();
-        w.auth_args[i] = arb_argbuf();
-        i += 1;
-    }
     let account = Address::from_id(w.contract);
     let (c1, t1) = arb_context();
     let (c2, t2x) = if n_ctx == 2 { arb_context() } else { (c1.clone(), t1.clone()) };
@@ -268,7 +280,7 @@ pub fn scenario(n_ctx: usize, max_sig: u32, max_pol: u32, max_supplied: u32) -> 
     let same = n_ctx == 1 || model_eq(&t1, &t2x);
     let t2 = t2x;
     let max_kind = if n_ctx == 2 && !same { 3 } else { 2 };
-    let rules = mk_rules(&t1, &t2, max_kind, max_sig, max_pol);
+    let rules = mk_rules(shape, &t1, &t2, max_kind, max_sig, max_pol);
     declare_list(S_IDS_1, &t1, &list_of(&rules, 1));
     declare_list(S_IDS_D, &ContextRuleType::Default, &list_of(&rules, 2));
     if n_ctx == 2 {
@@ -288,8 +300,21 @@ pub fn scenario(n_ctx: usize, max_sig: u32, max_pol: u32, max_supplied: u32) -> 
         }
         k += 1;
     }
+    let payload = Hash::<32>::arb();
+    let expected = {
+        let args: Vec<Val> = (payload.clone(),).into_val(&Env);
+        let mut a = ArgBuf::new();
+        a.push(&args);
+        a
+    };
+    let mut i = 0;
+    while i < NADDR {
+        w.auth_args_set[i] = kani::any();
+        w.auth_args[i] = arb_grant(&expected);
+        i += 1;
+    }
     Scenario {
-        payload: Hash::<32>::arb(),
+        payload,
         keys,
         sigs,
         account,
@@ -349,19 +374,45 @@ fn unexpired(r: &ContextRule) -> bool {
         Some(v) => v >= world().seq,
     }
 }
+/// word-wise equality, 8 words per loop trip, no early exit
+fn words_eq<const N: usize>(a: &[u64; N], b: &[u64; N]) -> bool {
+    let mut r = true;
+    let mut c = 0;
+    while c < N {
+        r &= a[c] == b[c];
+        if c + 1 < N { r &= a[c + 1] == b[c + 1]; }
+        if c + 2 < N { r &= a[c + 2] == b[c + 2]; }
+        if c + 3 < N { r &= a[c + 3] == b[c + 3]; }
+        if c + 4 < N { r &= a[c + 4] == b[c + 4]; }
+        if c + 5 < N { r &= a[c + 5] == b[c + 5]; }
+        if c + 6 < N { r &= a[c + 6] == b[c + 6]; }
+        if c + 7 < N { r &= a[c + 7] == b[c + 7]; }
+        c += 8;
+    }
+    r
+}
+fn args_eq(a: &ArgBuf, b: &ArgBuf) -> bool {
+    a.n == b.n && words_eq(&a.w, &b.w)
+}
 /// the p-th logged foreign call is exactly (callee, func, args)
 fn call_is(p: u32, callee: &Address, func: u64, args: &ArgBuf) -> bool {
     let w = world();
-    let mut r = false;
+    // select the record at the (symbolic) position first, compare once
+    let mut hit = false;
+    let mut rc = 0u32;
+    let mut rf = 0u64;
+    let mut ra = ArgBuf::new();
     let mut i = 0;
     while i < NC {
         if i as u32 == p && p < w.n_calls {
-            let c = &w.calls[i];
-            r = c.callee == callee.id && c.func == func && c.args.eq(args);
+            hit = true;
+            rc = w.calls[i].callee;
+            rf = w.calls[i].func;
+            ra = w.calls[i].args;
         }
         i += 1;
     }
-    r
+    hit && rc == callee.id && rf == func && args_eq(&ra, args)
 }
 /// the p-th foreign call returns normally with `true` (read from the log, or from the pinned answers)
 fn answer_at(p: u32, pinned: bool) -> bool {
@@ -371,9 +422,9 @@ fn answer_at(p: u32, pinned: bool) -> bool {
     while i < NC {
         if i as u32 == p {
             r = if pinned {
-                w.preset[i] && !w.preset_failed[i] && w.preset_ret[i][0] == TRUE_W
+                w.preset[i] && !w.preset_failed[i] && is_true(w.preset_ret[i][0])
             } else {
-                p < w.n_calls && !w.calls[i].failed && w.calls[i].ret[0] == TRUE_W
+                p < w.n_calls && !w.calls[i].failed && is_true(w.calls[i].ret[0])
             };
         }
         i += 1;
@@ -392,7 +443,7 @@ fn granted(a: &Address, args: &ArgBuf) -> bool {
     let mut i = 0;
     while i < NADDR {
         if a.id == i as u32 {
-            r = w.auth_args_set[i] && w.auth_args[i].eq(args);
+            r = w.auth_args_set[i] && args_eq(&w.auth_args[i], args);
         }
         i += 1;
     }
@@ -412,17 +463,28 @@ pub struct Outcome {
     pub query_trace: bool,
     /// every context has a chosen (= first satisfied) rule
     pub covered: bool,
-    /// phase 3: the `enforce` calls are exactly the chosen rules' policies, and nothing follows
+    /// phase 3: the `enforce` calls are exactly the chosen rules' policies
     pub enforce_trace: bool,
+    /// nothing else is in the call log
+    pub complete: bool,
     /// slot of the chosen rule per context (NR = none)
     pub chosen: [u32; 2],
     /// the chosen rule was reached after an earlier candidate failed
     pub fell_through: [bool; 2],
+    /// a listed rule earlier in the precedence order than the chosen one was expired
+    pub skipped_expired: [bool; 2],
 }
 
 /// `pinned`: answers come from the pinned presets (before the call; the log is not inspected);
 /// otherwise the log of the finished call is matched against the reference.
 pub fn reference(sc: &Scenario, pinned: bool) -> Outcome {
+    reference_phases(sc, pinned, P_VERIFY | P_SELECT | P_ENFORCE)
+}
+pub const P_VERIFY: u8 = 1;
+pub const P_SELECT: u8 = 2;
+pub const P_ENFORCE: u8 = 4;
+/// the reference restricted to the phases the called function runs
+pub fn reference_phases(sc: &Scenario, pinned: bool, phases: u8) -> Outcome {
     let e = Env;
     let mut p: u32 = 0;
     // ---- phase 1
@@ -432,7 +494,7 @@ pub fn reference(sc: &Scenario, pinned: bool) -> Outcome {
     let auth_expected = payload_args(sc);
     let payload_bytes = Bytes::from_array(&e, &sc.payload.to_bytes().to_array());
     let mut k = 0;
-    while k < CAP {
+    while k < CAP && phases & P_VERIFY != 0 {
         if let (Some(s), Some(sig)) = (sc.keys.get(k as u32), sc.sigs.get(k as u32)) {
             match s {
                 Signer::External(v, key) => {
@@ -464,10 +526,11 @@ pub fn reference(sc: &Scenario, pinned: bool) -> Outcome {
     let mut covered = true;
     let mut chosen = [NR as u32; 2];
     let mut fell_through = [false; 2];
+    let mut skipped_expired = [false; 2];
     // argument words of can_enforce / enforce per (context, rule)
     let mut args: [[ArgBuf; NR]; 2] = [[ArgBuf::new(); NR]; 2];
     let mut c = 0;
-    while c < sc.n_ctx {
+    while c < sc.n_ctx && phases & P_SELECT != 0 {
         let mut found = false;
         let mut failed_before = false;
         let mut pass = 0;
@@ -477,6 +540,9 @@ pub fn reference(sc: &Scenario, pinned: bool) -> Outcome {
             while jj < NR {
                 let j = NR - 1 - jj; // newest first
                 let r = &sc.rules[j];
+                if !found && r.kind == want_kind && !unexpired(&r.rule) {
+                    skipped_expired[c] = true;
+                }
                 if !found && r.kind == want_kind && unexpired(&r.rule) {
                     let inter = intersect(&r.rule.signers, &sc.keys);
                     let mut sat;
@@ -524,7 +590,7 @@ pub fn reference(sc: &Scenario, pinned: bool) -> Outcome {
     // ---- phase 3
     let mut enforce_trace = true;
     let mut c = 0;
-    while c < sc.n_ctx {
+    while c < sc.n_ctx && phases & P_ENFORCE != 0 {
         let mut j = 0;
         while j < NR {
             if chosen[c] == j as u32 {
@@ -544,10 +610,8 @@ pub fn reference(sc: &Scenario, pinned: bool) -> Outcome {
         }
         c += 1;
     }
-    if !pinned {
-        enforce_trace &= p == world().n_calls;
-    }
-    Outcome { n_ext, verify_trace, verified, delegated, query_trace, covered, enforce_trace, chosen, fell_through }
+    let complete = pinned || p == world().n_calls;
+    Outcome { n_ext, verify_trace, verified, delegated, query_trace, covered, enforce_trace, complete, chosen, fell_through, skipped_expired }
 }
 
 fn run(sc: &Scenario, via_example: bool) {
@@ -564,53 +628,65 @@ fn run(sc: &Scenario, via_example: bool) {
 }
 
 /// post-conditions of an authorization check that returned Ok
-fn soundness(sc: &Scenario, declared: usize) {
+fn soundness(sc: &Scenario, declared: usize) -> Outcome {
     let o = reference(sc, false);
     prop!(o.verify_trace, "C03.check_auth.each_external_signature_sent_to_its_verifier_exactly");
     prop!(o.verified, "C03.check_auth.every_verifier_answered_true");
     prop!(o.delegated, "C03.check_auth.delegated_signers_authorized_the_payload");
     prop!(o.query_trace, "C03.check_auth.rules_tried_in_precedence_order_with_exactly_the_rule_signers_supplied");
     prop!(o.covered, "C03.check_auth.every_context_covered_by_a_live_satisfied_rule");
-    prop!(o.enforce_trace, "C03.check_auth.enforce_exactly_once_per_policy_of_the_chosen_rule");
+    prop!(o.enforce_trace && o.complete, "C03.check_auth.enforce_exactly_once_per_policy_of_the_chosen_rule");
     // storage is only read (TTL extensions aside): no event, no new key
     prop!(model::n_events() == 0, "C03.check_auth.no_event");
-    witnesses(sc, &o);
+    witnesses_one_rule(sc, &o);
+    witness!(o.n_ext >= 1, "external_signer_supplied");
+    witness!(o.n_ext < sc.keys.len(), "delegated_signer_supplied");
     end_checks(declared);
+    o
 }
-fn witnesses(sc: &Scenario, o: &Outcome) {
-    // properties of the rule chosen for context 1 (collected without symbolic indexing)
-    let mut ch_kind = 0u8;
-    let mut ch_pol = 0u32;
-    let mut ch_sig = 0u32;
-    let mut ch_inter = 0u32;
-    let mut ch_until: Option<u32> = None;
+/// facts about the rule chosen for context 1 (collected without symbolic indexing)
+pub struct Facts {
+    pub kind: u8,
+    pub pol: u32,
+    pub sig: u32,
+    pub inter: u32,
+    pub until: Option<u32>,
+}
+fn facts(sc: &Scenario, o: &Outcome) -> Facts {
+    let mut f = Facts { kind: 0, pol: 0, sig: 0, inter: 0, until: None };
     let mut j = 0;
     while j < NR {
         let r = &sc.rules[j];
         if o.chosen[0] == j as u32 {
-            ch_kind = r.kind;
-            ch_pol = r.rule.policies.len();
-            ch_sig = r.rule.signers.len();
-            ch_inter = intersect(&r.rule.signers, &sc.keys).len();
-            ch_until = r.rule.valid_until;
+            f = Facts {
+                kind: r.kind,
+                pol: r.rule.policies.len(),
+                sig: r.rule.signers.len(),
+                inter: intersect(&r.rule.signers, &sc.keys).len(),
+                until: r.rule.valid_until,
+            };
         }
         j += 1;
     }
-    witness!(ch_kind == 2, "default_rule_chosen");
-    witness!(ch_kind == 1, "type_specific_rule_chosen");
-    witness!(ch_pol >= 1, "rule_with_policy_chosen");
-    witness!(ch_kind != 0 && ch_pol == 0 && ch_sig == 2, "two_signer_rule_without_policy_chosen");
+    f
+}
+/// witnesses every harness with at least one listed rule can reach
+fn witnesses_one_rule(sc: &Scenario, o: &Outcome) {
+    let f = facts(sc, o);
+    witness!(f.kind != 0 && f.pol >= 1, "rule_with_policy_chosen");
+    witness!(f.kind != 0 && f.pol == 0 && f.sig == 2, "two_signer_rule_without_policy_chosen");
+    witness!(f.kind != 0 && f.until == Some(world().seq), "rule_expiring_now_still_valid");
+    witness!(f.kind != 0 && sc.keys.len() == 2 && f.inter == 1, "supplied_signer_outside_the_rule");
+}
+/// witnesses of the harnesses with two listed rules
+fn witnesses_two_rules(sc: &Scenario, o: &Outcome) {
+    witnesses_one_rule(sc, o);
     witness!(o.fell_through[0], "earlier_candidate_failed_first");
-    witness!(ch_kind != 0 && ch_until == Some(world().seq), "rule_expiring_now_still_valid");
-    witness!(ch_kind != 0 && sc.keys.len() == 2 && ch_inter == 1, "supplied_signer_outside_the_rule");
-    witness!(o.n_ext >= 1, "external_signer_supplied");
-    witness!(o.n_ext < sc.keys.len(), "delegated_signer_supplied");
-    let newer = &sc.rules[NR - 1];
-    witness!(o.chosen[0] == 0 && newer.kind == sc.rules[0].kind && !unexpired(&newer.rule), "expired_newer_rule_skipped");
+    witness!(o.skipped_expired[0], "expired_earlier_candidate_skipped");
 }
 
 /// everything pinned so that the reference accepts; then the call must return Ok
-fn converse(sc: &Scenario) {
+fn converse(sc: &Scenario) -> Outcome {
     // every foreign call returns normally; its boolean answer is arbitrary
     let mut i = 0;
     while i < NC {
@@ -628,69 +704,226 @@ fn converse(sc: &Scenario) {
     prop!(r.is_ok(), "C03.check_auth.accepts_when_signatures_verify_and_a_satisfied_rule_exists");
     world().must_succeed = false;
     witness!(o.n_ext >= 1, "accepted_with_external_signer");
-    witness!(o.chosen[0] == 0 && o.fell_through[0], "accepted_by_older_rule_after_refusal");
-    witness!(sc.rules[NR - 1].kind == 2 && o.chosen[0] == (NR - 1) as u32, "accepted_by_default_rule");
+    witness!(o.n_ext < sc.keys.len(), "accepted_with_delegated_signer");
+    o
 }
 
 // ------------------------------------------------------------------------------------------ harnesses
-/// quick: 1 context, CAP rules, <= 2 signers per rule, <= 1 policy per rule, <= 2 signatures; through the example's __check_auth
+// The full `do_check_auth` over a registry with symbolic list shapes is beyond the solver (757 s of symbolic
+// execution, then out of memory at 12 GB). The obligations are therefore split along the code's own composition
+//   do_check_auth = authenticate ; get_validated_context per context ; enforce per validated context
+// (1) `authenticate_*`: phase 1 alone; (2) `select_*`: `get_validated_context` alone, one harness per CONCRETE
+// list shape (which slots are listed where; everything else symbolic), where the chosen rule is OBSERVED as the
+// returned value (also for rules without policies); (3) `check_auth_*`: the whole `do_check_auth` /
+// `__check_auth` over registries of concrete shape, all three phases in one trace.
+
+/// shapes over the rule slots (older .. newer); unused slots of a CAP = 3 profile are unlisted
+#[cfg(not(feature = "cap3"))]
+const fn shape(a: u8, b: u8) -> [u8; NR] {
+    [a, b]
+}
+#[cfg(feature = "cap3")]
+const fn shape(a: u8, b: u8) -> [u8; NR] {
+    [0, a, b]
+}
+
+/// phase 1 alone: `authenticate(payload, signatures)`
 #[kani::proof]
 #[kani::unwind(98)]
-pub fn check_auth_1ctx() {
-    let sc = scenario(1, 2, 1, 2);
+pub fn authenticate_signatures() {
+    let sc = scenario_shaped(&shape(0, 0), 1, 1, 1, CAP as u32);
+    let e = Env::default();
+    stellar_accounts::smart_account::authenticate(&e, &sc.payload, &signatures(&sc).0);
+    let o = reference_phases(&sc, false, P_VERIFY);
+    prop!(o.verify_trace && o.complete, "C03.authenticate.each_external_signature_sent_to_its_verifier_exactly");
+    prop!(o.verified, "C03.authenticate.every_verifier_answered_true");
+    prop!(o.delegated, "C03.authenticate.delegated_signers_authorized_the_payload");
+    prop!(model::n_events() == 0, "C03.authenticate.no_event");
+    witness!(o.n_ext == 2, "two_external_signers");
+    witness!(o.n_ext == 1 && sc.keys.len() == 2, "external_and_delegated_signer");
+    witness!(o.n_ext == 0 && sc.keys.len() == 2, "two_delegated_signers");
+    witness!(sc.keys.len() == 0, "no_signature");
+    end_checks(DECLARED_1);
+}
+#[kani::proof]
+#[kani::unwind(98)]
+pub fn authenticate_signatures_accepts() {
+    let sc = scenario_shaped(&shape(0, 0), 1, 1, 1, CAP as u32);
+    let mut i = 0;
+    while i < NC {
+        let b: bool = kani::any();
+        model::preset_call::<bool>(i, false, &b);
+        i += 1;
+    }
+    let o = reference_phases(&sc, true, P_VERIFY);
+    kani::assume(o.verified && o.delegated);
+    world().must_succeed = true;
+    stellar_accounts::smart_account::authenticate(&Env::default(), &sc.payload, &signatures(&sc).0);
+    world().must_succeed = false;
+    prop!(model::n_calls() == o.n_ext, "C03.authenticate.accepts_when_every_signature_verifies");
+    witness!(o.n_ext == 1 && sc.keys.len() == 2, "mixed_signers_accepted");
+}
+
+/// phase 2 alone over a registry of the given shape: the returned (rule, context, signers) is the reference's choice
+fn select(sh: &[u8; NR], max_sig: u32, max_pol: u32) -> (Scenario, Outcome) {
+    let sc = scenario_shaped(sh, 1, max_sig, max_pol, CAP as u32);
+    let e = Env::default();
+    let (rule, cx, signers) = stellar_accounts::smart_account::get_validated_context(&e, &sc.ctx[0], &sc.keys);
+    let o = reference_phases(&sc, false, P_SELECT);
+    prop!(o.query_trace && o.complete, "C03.select.rules_tried_in_precedence_order_with_exactly_the_rule_signers_supplied");
+    prop!(o.covered, "C03.select.context_covered_by_a_live_satisfied_rule");
+    let mut same_rule = false;
+    let mut same_signers = false;
+    let mut j = 0;
+    while j < NR {
+        if o.chosen[0] == j as u32 {
+            same_rule = rule == sc.rules[j].rule;
+            same_signers = signers == intersect(&sc.rules[j].rule.signers, &sc.keys);
+        }
+        j += 1;
+    }
+    prop!(same_rule, "C03.select.returns_the_first_satisfied_rule_in_precedence_order");
+    prop!(same_signers, "C03.select.returns_exactly_the_rule_signers_supplied");
+    prop!(cx == sc.ctx[0], "C03.select.returns_the_context");
+    prop!(model::n_events() == 0, "C03.select.no_event");
+    witnesses_two_rules(&sc, &o);
+    end_checks(DECLARED_1);
+    (sc, o)
+}
+fn select_accepts(sh: &[u8; NR], max_sig: u32, max_pol: u32) {
+    let sc = scenario_shaped(sh, 1, max_sig, max_pol, CAP as u32);
+    let mut i = 0;
+    while i < NC {
+        let b: bool = kani::any();
+        model::preset_call::<bool>(i, false, &b);
+        i += 1;
+    }
+    let o = reference_phases(&sc, true, P_SELECT);
+    kani::assume(o.covered);
+    kani::assume(world().seq <= u32::MAX - 40 * 17280);
+    world().must_succeed = true;
+    let (rule, _cx, _s) = stellar_accounts::smart_account::get_validated_context(&Env::default(), &sc.ctx[0], &sc.keys);
+    world().must_succeed = false;
+    let mut same_rule = false;
+    let mut j = 0;
+    while j < NR {
+        if o.chosen[0] == j as u32 {
+            same_rule = rule.id == sc.rules[j].rule.id;
+        }
+        j += 1;
+    }
+    prop!(same_rule, "C03.select.accepts_when_a_satisfied_rule_exists");
+    witness!(o.fell_through[0], "accepted_after_an_earlier_candidate_failed");
+}
+/// both rules of the context's own type
+#[kani::proof]
+#[kani::unwind(98)]
+pub fn select_own_own() {
+    let (_sc, o) = select(&shape(1, 1), 2, 1);
+    witness!(o.chosen[0] == (NR - 2) as u32, "older_rule_chosen");
+    witness!(o.chosen[0] == (NR - 1) as u32, "newer_rule_chosen");
+}
+/// both rules Default
+#[kani::proof]
+#[kani::unwind(98)]
+pub fn select_default_default() {
+    let (_sc, o) = select(&shape(2, 2), 2, 1);
+    witness!(o.chosen[0] == (NR - 2) as u32, "older_rule_chosen");
+    witness!(o.chosen[0] == (NR - 1) as u32, "newer_rule_chosen");
+}
+/// an own-type rule and a NEWER Default rule: the own-type rule still comes first
+#[kani::proof]
+#[kani::unwind(98)]
+pub fn select_own_default() {
+    let (_sc, o) = select(&shape(1, 2), 2, 1);
+    witness!(o.chosen[0] == (NR - 2) as u32, "older_own_type_rule_beats_newer_default_rule");
+    witness!(o.chosen[0] == (NR - 1) as u32, "default_rule_as_fallback");
+}
+/// a Default rule and a newer own-type rule
+#[kani::proof]
+#[kani::unwind(98)]
+pub fn select_default_own() {
+    let (_sc, o) = select(&shape(2, 1), 2, 1);
+    witness!(o.chosen[0] == (NR - 2) as u32, "default_rule_as_fallback");
+    witness!(o.chosen[0] == (NR - 1) as u32, "own_type_rule_chosen");
+}
+/// any shape (symbolic kinds), converse only (no trace comparison)
+#[kani::proof]
+#[kani::unwind(98)]
+pub fn select_any_accepts() {
+    select_accepts(&[ANY; NR], 2, 1);
+}
+/// thorough: up to 2 policies per rule
+#[kani::proof]
+#[kani::unwind(98)]
+pub fn select_own_own_2pol() {
+    let _ = select(&shape(1, 1), 2, 2);
+}
+#[kani::proof]
+#[kani::unwind(98)]
+pub fn select_own_default_2pol() {
+    let _ = select(&shape(1, 2), 2, 2);
+}
+#[kani::proof]
+#[kani::unwind(98)]
+pub fn select_default_default_2pol() {
+    let _ = select(&shape(2, 2), 2, 2);
+}
+/// thorough, CAP = 3 profile: three listed rules
+#[cfg(feature = "cap3")]
+#[kani::proof]
+#[kani::unwind(98)]
+pub fn select_own_own_default() {
+    let _ = select(&[2, 1, 1], 3, 1);
+}
+#[cfg(feature = "cap3")]
+#[kani::proof]
+#[kani::unwind(98)]
+pub fn select_own_default_default() {
+    let _ = select(&[2, 2, 1], 3, 1);
+}
+
+/// the whole check through the example's `__check_auth`: one listed rule (Default) + one stored but unlisted rule
+#[kani::proof]
+#[kani::unwind(98)]
+pub fn check_auth_one_default_rule() {
+    let sc = scenario_shaped(&shape(0, 2), 1, 2, 2, 2);
     run(&sc, true);
-    soundness(&sc, DECLARED_1);
+    let _ = soundness(&sc, DECLARED_1);
 }
-/// converse of `check_auth_1ctx` (library function directly)
+/// the whole check, library function: one listed rule of the context's own type
 #[kani::proof]
 #[kani::unwind(98)]
-pub fn check_auth_1ctx_accepts() {
-    let sc = scenario(1, 2, 1, 2);
-    converse(&sc);
-}
-/// thorough: as above with <= CAP signers, <= 2 policies per rule, <= CAP signatures
-#[kani::proof]
-#[kani::unwind(98)]
-pub fn check_auth_1ctx_wide() {
-    let sc = scenario(1, CAP as u32, 2, CAP as u32);
+pub fn check_auth_one_own_rule() {
+    let sc = scenario_shaped(&shape(0, 1), 1, 2, 2, 2);
     run(&sc, false);
-    soundness(&sc, DECLARED_1);
+    let _ = soundness(&sc, DECLARED_1);
 }
 #[kani::proof]
 #[kani::unwind(98)]
-pub fn check_auth_1ctx_wide_accepts() {
-    let sc = scenario(1, CAP as u32, 2, CAP as u32);
-    converse(&sc);
+pub fn check_auth_one_rule_accepts() {
+    let sc = scenario_shaped(&shape(0, ANY), 1, 2, 2, 2);
+    let o = converse(&sc);
+    witness!(sc.rules[NR - 1].kind == 2 && o.chosen[0] == (NR - 1) as u32, "accepted_by_default_rule");
+    witness!(sc.rules[NR - 1].kind == 1 && o.chosen[0] == (NR - 1) as u32, "accepted_by_own_type_rule");
 }
-/// thorough: a batch of 2 contexts (same or different rule types), <= 2 signers and <= 1 policy per rule
+/// thorough: the whole check over two listed rules (own type + Default), <= 1 policy each
 #[kani::proof]
 #[kani::unwind(98)]
-pub fn check_auth_2ctx() {
-    let sc = scenario(2, 2, 1, 2);
+pub fn check_auth_own_and_default_rule() {
+    let sc = scenario_shaped(&shape(2, 1), 1, 2, 1, 2);
     run(&sc, false);
-    soundness(&sc, DECLARED_2);
+    let o = soundness(&sc, DECLARED_1);
+    witness!(o.fell_through[0], "earlier_candidate_failed_first");
+    witness!(o.skipped_expired[0], "expired_earlier_candidate_skipped");
+}
+/// thorough: a batch of 2 contexts (same or different rule types) over one Default rule
+#[kani::proof]
+#[kani::unwind(98)]
+pub fn check_auth_2ctx_one_default_rule() {
+    let sc = scenario_shaped(&shape(0, 2), 2, 2, 1, 2);
+    run(&sc, false);
+    let _ = soundness(&sc, DECLARED_2);
     witness!(sc.ctx_kind[1] == 3, "contexts_of_different_types");
     witness!(sc.ctx_kind[1] == 1, "contexts_of_the_same_type");
-}
-#[kani::proof]
-#[kani::unwind(98)]
-pub fn check_auth_2ctx_accepts() {
-    let sc = scenario(2, 2, 1, 2);
-    converse(&sc);
-}
-/// thorough (profile sa_auth3, CAP = 3): 1 context, 3 rules, <= 3 signers and <= 2 policies per rule, <= 3 signatures
-#[cfg(feature = "cap3")]
-#[kani::proof]
-#[kani::unwind(98)]
-pub fn check_auth_3rules() {
-    let sc = scenario(1, 3, 2, 3);
-    run(&sc, false);
-    soundness(&sc, DECLARED_1);
-}
-#[cfg(feature = "cap3")]
-#[kani::proof]
-#[kani::unwind(98)]
-pub fn check_auth_3rules_accepts() {
-    let sc = scenario(1, 3, 2, 3);
-    converse(&sc);
 }
